@@ -776,6 +776,8 @@ def run_case(ctx, batch, c, tag):
         check_history(ctx, c, tag, shrink=False)
     elif c["kind"] == "rule":
         check_rules(ctx, batch, c["backend"], c["a"], c["b"], tag)
+    elif c["kind"] == "ir":
+        check_ir(ctx, batch, undump(c["graph"]), tag)
     batch.run()
 
 
@@ -783,9 +785,10 @@ def stream_tiny(ctx, batch):
     """tiny-exhaustive bases × all node permutations × 3 insertion orders; pool kernel by the proven
     brute-force canonical form."""
     rnd = ctx.rnd
-    plan = [(1, ["C", "O"], [1.0], None, 3), (2, ["C", "O"], [1.0, 2.0], None, 3), (3, ["C", "O"], [1.0, 2.0], None, 3)]
+    # quick: 3- and 4-node graphs with 1 insertion order per permutation (shuffled nodes and edges, random orientation); all 3 on 1-2 nodes
+    plan = [(1, ["C", "O"], [1.0], None, 3), (2, ["C", "O"], [1.0, 2.0], None, 3), (3, ["C", "O"], [1.0, 2.0], None, 1 if ctx.quick else 3)]
     if ctx.quick:
-        plan.append((4, ["C", "O"], [1.0], 80, 3))
+        plan.append((4, ["C", "O"], [1.0], 32, 1))
     else:
         plan.append((4, ["C", "O"], [1.0], None, 2))
         plan.append((4, ["C", "N"], [1.0, 2.0], 300, 2))
@@ -845,7 +848,7 @@ def kernel_pool(ctx, batch, pool, tag):
 
 def stream_random(ctx, batch):
     rnd = ctx.rnd
-    n_graphs = 120 if ctx.quick else 900
+    n_graphs = 80 if ctx.quick else 900
     k_copies = 3 if ctx.quick else 5
     pool = []
     for t in range(n_graphs):
@@ -873,12 +876,12 @@ def stream_random(ctx, batch):
 def stream_symmetric(ctx, batch):
     rnd = ctx.rnd
     fams = symmetric_families(ctx.quick)
-    k = 12 if ctx.quick else 40
+    k = 6 if ctx.quick else 40
     k0 = k
     for name, g in fams.items():
         k = k0 if g.number_of_nodes() < 11 else 6  # the exact search is slow on large single-cell graphs
         copies = [random_copy(rnd, g) for _ in range(k)]
-        check_copies(ctx, batch, g, copies, f"sym:{name}", deep_n=2)
+        check_copies(ctx, batch, g, copies, f"sym:{name}", deep_n=1 if ctx.quick else 2)
         ctx.case(["sym", name], nontrivial=True, sample={"stream": "symmetric", "family": name})
         ctx.count("symmetric_families")
         # one label changed on one node / one edge: breaks part of the symmetry
@@ -1179,7 +1182,7 @@ def stream_shapes(ctx, batch):
     q = ctx.quick
     # (a) tiny-exhaustive, pair-valued orders, all node permutations
     pools = {m: [] for m in STD_MODES}  # one Python type per value within a pool: `arom` / `zero` write the int 0, `diff` the float 0.0
-    plan = [(2, ITS_PAIRS[0] + ((1.0, 1.0),), None, 2), (3, ITS_PAIRS[0] + ((1.0, 1.0),), 40 if q else None, 1 if q else 2),
+    plan = [(2, ITS_PAIRS[0] + ((1.0, 1.0),), None, 2), (3, ITS_PAIRS[0] + ((1.0, 1.0),), 30 if q else None, 1 if q else 2),
             (3, ITS_PAIRS[1] + ITS_PAIRS[2][:1], 8 if q else 128, 1), (4, ITS_PAIRS[0] + ((1.0, 1.0),), 5 if q else 200, 1)]
     for n, alphabet, sample, n_orders in plan:
         bases = tiny_its_bases(n, alphabet, rnd, sample)
@@ -1729,15 +1732,379 @@ def stream_history(ctx, batch):
                 return
 
 
+# ------------------------------------------------------------------ IR correspondence (exact back-end, stage by stage)
+IR_NODE_ATTRS = ["element", "aromatic", "charge", "hcount"]  # SynKitModel/NautyIR.lean: irNodeAttrNames / irEdgeAttrNames
+IR_EDGE_ATTRS = ["order", "standard_order"]
+IR_MAX_REPORTS = 3
+
+
+class _TooManyLeaves(Exception):
+    pass
+
+
+_probe_cls = None
+
+
+def probe_class():
+    """Subclass of the REAL `NautyCanonicalizer` (nothing of the algorithm is re-implemented): it records
+    every `_build_label` call `_search` makes — one per leaf, with the sequence the label is built over
+    (prefix + order) and the string the real method returns — and can switch the pruning test off by
+    answering the empty string for the partial label (`"" > best` is false for every string)."""
+    global _probe_cls
+    if _probe_cls is None:
+        from synkit.Graph.Canon.nauty import NautyCanonicalizer
+
+        class Probe(NautyCanonicalizer):
+            __slots__ = ("leaves", "prune", "cap")
+
+            def _build_label(self, G, perm):
+                label = super()._build_label(G, perm)
+                self.leaves.append(([v for v in perm], label))
+                if len(self.leaves) > self.cap:
+                    raise _TooManyLeaves()
+                return label
+
+            def _build_partial_label(self, G, prefix):
+                return super()._build_partial_label(G, prefix) if self.prune else ""
+
+        _probe_cls = Probe
+    return _probe_cls
+
+
+def ir_scope(g):
+    """None when the graph is within the model's precondition (`IRCovered`: every node / edge carries
+    every covered attribute) and writes each covered attribute with one Python type (the model reads
+    numbers in half-units, `str` does not: 0 and 0.0 are one value there and two strings here)."""
+    if not ids_ok(g):
+        return "ids"
+    for keys, items in ((IR_NODE_ATTRS, [d for _, d in g.nodes(data=True)]), (IR_EDGE_ATTRS, [d for _, _, d in g.edges(data=True)])):
+        for k in keys:
+            if any(k not in d for d in items):
+                return "not_covered"
+            if len({len(d[k]) if isinstance(d[k], tuple) else -1 for d in items}) > 1:
+                return "mixed_shapes"  # scalar next to pair-valued orders: Python cannot sort them
+            try:
+                seen = {(json.dumps(graphio.val(d[k]), sort_keys=True), str(d[k])) for d in items}
+            except graphio.Unsupported:
+                return "unsupported_value"
+            if not len({a for a, _ in seen}) == len({b for _, b in seen}) == len(seen):
+                return "mixed_types"  # e.g. 0 next to 0.0
+    return None
+
+
+def ir_complete(rnd, g):
+    """Molecule-style graphs carry no `standard_order`; the model's precondition wants the key on every
+    edge.  When NO edge has it, write it as a function of `order` (pairs: one of SynKit's rules; scalars:
+    0.0 or the order itself)."""
+    if not g.number_of_edges() or any("standard_order" in d for _, _, d in g.edges(data=True)):
+        return g
+    if any(isinstance(d.get("order"), tuple) for _, _, d in g.edges(data=True)):
+        return set_std(g, rnd.choice(["diff", "zero", "arom"]))
+    same = rnd.random() < 0.5
+    for _, _, d in g.edges(data=True):
+        if "order" in d:
+            d["standard_order"] = float(d["order"]) if same else 0.0
+    return g
+
+
+def enc_part(p):
+    return [[int(v) for v in c] for c in p]
+
+
+def enc_sig(sig):
+    attrs, degree, counts, edges = sig
+    return {"attrs": [graphio.val(x) for x in attrs], "degree": int(degree), "counts": [int(c) for c in counts],
+            "edges": [[graphio.val(x) for x in e] for e in edges]}
+
+
+def eq_pattern(xs):
+    """The partition of positions induced by equality, as the list of first occurrences."""
+    first = {}
+    return [first.setdefault(x, i) for i, x in enumerate(xs)]
+
+
+def random_partition(rnd, g, refined):
+    """A partition to probe `_node_signature` / `_refine` on: the unit partition, one cell of the refined
+    partition individualised at a random node, or random cells (every cell sorted by id, as the code keeps them)."""
+    nodes = sorted(g.nodes)
+    kind = rnd.choice(["unit", "indiv", "indiv", "random"])
+    big = [i for i, c in enumerate(refined) if len(c) > 1]
+    if kind == "indiv" and big:
+        i = rnd.choice(big)
+        v = rnd.choice(refined[i])
+        return [list(c) for c in refined[:i]] + [[v], sorted(w for w in refined[i] if w != v)] + [list(c) for c in refined[i + 1:]]
+    if kind == "unit" or len(nodes) < 2:
+        return [nodes]
+    sh = nodes[:]
+    rnd.shuffle(sh)
+    cuts = sorted(rnd.sample(range(1, len(sh)), rnd.randint(1, min(3, len(sh) - 1))))
+    return [sorted(sh[a:b]) for a, b in zip([0] + cuts, cuts + [len(sh)])]
+
+
+def ir_reports(ctx):
+    return sum(1 for v in ctx.violations if isinstance(v.get("detail"), dict) and str(v["detail"].get("stream", "")).startswith("ir:"))
+
+
+def ir_break(ctx, g, tag, stage, detail):
+    """A stage of the real search differs from the model.  If the difference shows up as a violation of
+    the property itself — a relabelled copy of the graph with another signature — report that pair;
+    otherwise the correspondence broke without a failing input."""
+    ctx.count(f"ir:break:{stage}")
+    if ir_reports(ctx) >= IR_MAX_REPORTS:
+        return
+    detail = dict(detail, stream=f"ir:{tag}", stage=stage)
+    classes = input_classes(g)
+    try:
+        gc = canoniser("nauty")
+        s0 = gc.canonical_signature(g)
+        for _ in range(8):
+            c = random_copy(ctx.rnd, g)
+            s1 = gc.canonical_signature(c)
+            if s1 != s0:
+                ctx.violation("exact back-end: isomorphic graphs receive different signatures / canonical graphs",
+                              {"kind": "pair", "backend": "nauty", "x": dump(g), "y": dump(c)},
+                              dict(detail, sig_x=s0, sig_y=s1, found_by="stage of the search differs from the model SynKitModel/NautyIR.lean"), classes=classes)
+                return
+    except Exception as e:
+        detail["signature_raises"] = type(e).__name__
+    ctx.violation(f"correspondence (exact back-end search, stage {stage}): nauty.py differs from the model SynKitModel/NautyIR.lean the "
+                  "invariance theorems are about", {"kind": "ir", "graph": dump(g)}, detail, classes=classes, no_input=True)
+
+
+def short(x, n=600):
+    s = json.dumps(x, default=str)
+    return s if len(s) <= n else s[:n] + "..."
+
+
+def check_ir(ctx, batch, g, tag):
+    """Stage-by-stage comparison of the real `NautyCanonicalizer` (configured by `GraphCanonicaliser(backend="nauty")`)
+    with the model of SynKitModel/NautyIR.lean on one graph."""
+    rnd = ctx.rnd
+    why = ir_scope(g)
+    if why:
+        ctx.count(f"ir:skipped:{why}")
+        return False
+    n = g.number_of_nodes()
+    cap = 400 if ctx.quick else 1500
+    case = {"kind": "ir", "graph": dump(g)}
+    try:
+        nz = make_canoniser("nauty").nauty
+        if list(nz.node_attrs) != IR_NODE_ATTRS or list(nz.edge_attrs) != IR_EDGE_ATTRS or type(nz).__name__ != "NautyCanonicalizer":
+            ir_break(ctx, g, tag, "configuration", {"node_attrs": list(nz.node_attrs), "edge_attrs": list(nz.edge_attrs)})
+            return False
+        initial = nz._initial_partition(g)
+        refined = nz._refine(g, [list(c) for c in initial])
+        probe = probe_class()(node_attrs=nz.node_attrs, edge_attrs=nz.edge_attrs)
+        probe.cap = cap
+        runs = {}
+        for prune in (False, True):
+            probe.leaves, probe.prune = [], prune
+            best = {"label": None, "perm": None}
+            try:
+                probe._search(g, probe._initial_partition(g), [], best, [], depth=0, max_depth=None)
+            except _TooManyLeaves:
+                ctx.count("ir:skipped:too_many_leaves")
+                return False
+            runs[prune] = (probe.leaves, best)
+        leaves = runs[False][0]
+        res = nz.canonical_form(g, return_perm=True)
+        perm = list(res[1])
+        parts = [random_partition(rnd, g, refined) for _ in range(2)] if n else []
+        sig_q = [(p, v, nz._node_signature(g, v, p)) for p in parts for v in rnd.sample(sorted(g.nodes), min(2, n))]
+        ref_q = [(p, nz._refine(g, [list(c) for c in p])) for p in parts]
+    except Exception as e:
+        ctx.count(f"ir:impl_raises:{type(e).__name__}")
+        if ir_reports(ctx) < IR_MAX_REPORTS:
+            ctx.violation(f"exact back-end: the search raises {type(e).__name__} on a graph that carries every covered attribute",
+                          {"kind": "single", "backend": "nauty", "graph": dump(g), "twin": False}, {"stream": f"ir:{tag}", "err": str(e)[:300]},
+                          classes=input_classes(g))
+        return False
+    ctx.count("ir:graphs")
+    ctx.count(f"ir:graphs:{tag}")
+    ctx.count("ir:leaves", len(leaves))
+    ctx.count("ir:leaves_le_1" if len(leaves) <= 1 else "ir:leaves_gt_1")
+    if len(runs[True][0]) < len(leaves):
+        ctx.count("ir:pruning_fired")
+    genc = dump(g)
+    state = {"broken": False}
+
+    def brk(stage, detail):
+        if not state["broken"]:
+            state["broken"] = True
+            ir_break(ctx, g, tag, stage, detail)
+
+    def on_ir(rep):
+        if rep["initial"] != enc_part(initial):
+            return brk("_initial_partition", {"impl": enc_part(initial), "model": rep["initial"]})
+        if rep["refined"] != enc_part(refined):
+            return brk("_refine(initial partition)", {"impl": enc_part(refined), "model": rep["refined"]})
+        impl_tree = [[[int(v) for v in p[:max(len(p) - n, 0)]], [int(v) for v in p[max(len(p) - n, 0):]]] for p, _ in leaves]
+        model_tree = [[l["prefix"], l["order"]] for l in rep["leaves"]]
+        if impl_tree != model_tree:
+            k = next((i for i, (a, b) in enumerate(zip(impl_tree, model_tree)) if a != b), min(len(impl_tree), len(model_tree)))
+            return brk("_search: leaves (prefix, order) in visiting order",
+                       {"n_impl": len(impl_tree), "n_model": len(model_tree), "first_difference_at": k,
+                        "impl": short(impl_tree[k:k + 2]), "model": short(model_tree[k:k + 2])})
+        pi = eq_pattern([lab for _, lab in leaves])
+        pm = eq_pattern([json.dumps(l["label"], sort_keys=True) for l in rep["leaves"]])
+        ctx.count("ir:label_classes", len(set(pm)))
+        if pi != pm:
+            k = next(i for i, (a, b) in enumerate(zip(pi, pm)) if a != b)
+            return brk("_build_label: which leaves have equal labels",
+                       {"leaf": k, "impl_equal_to_leaf": pi[k], "model_equal_to_leaf": pm[k], "leaves": short([impl_tree[k], impl_tree[pi[k]], impl_tree[pm[k]]]),
+                        "impl_labels": [leaves[k][1][:300], leaves[min(pi[k], pm[k])][1][:300]]})
+        labels = [lab for _, lab in leaves]
+        want = impl_tree[labels.index(min(labels))][1] if labels else None
+        if perm != want:
+            return brk("canonical_form: result is the first leaf with the minimal label", {"perm": perm, "first_minimal_leaf": want, "n_leaves": len(labels)})
+        if rep["best"] != rep["best_noprune"]:
+            return brk("model: search with pruning = search without", {"best": short(rep["best"]), "best_noprune": short(rep["best_noprune"])})
+        ctx.count("ir:final_order_same_as_model" if rep["order"] == perm else "ir:final_order_other_valid_choice")
+    batch.add({"cmd": "canon.ir", "graph": genc, "leaves": True}, on_ir)
+    for p, v, sig in sig_q:
+        def on_sig(rep, p=p, v=v, sig=sig):
+            ctx.count("ir:node_signatures")
+            try:
+                impl = enc_sig(sig)
+            except Exception as e:
+                impl = {"unencodable": repr(sig)[:300], "err": str(e)}
+            if rep != impl:
+                brk("_node_signature", {"partition": enc_part(p), "node": int(v), "impl": short(impl), "model": short(rep)})
+        batch.add({"cmd": "canon.ir_sig", "graph": genc, "partition": enc_part(p), "node": int(v)}, on_sig)
+    for p, out in ref_q:
+        def on_ref(rep, p=p, out=out):
+            ctx.count("ir:refine_of_random_partition")
+            if rep != enc_part(out):
+                brk("_refine", {"partition": enc_part(p), "impl": enc_part(out), "model": rep})
+        batch.add({"cmd": "canon.ir_refine", "graph": genc, "partition": enc_part(p)}, on_ref)
+    return True
+
+
+def twin_regular(rnd, quick):
+    """A d-regular carbon skeleton (one refinement cell, usually several orbits: branches of the search
+    discretise the carbons at different depths) plus two nitrogen twins (isolated, bonded to each other,
+    or both on one carbon) whose cell never splits: prefixes of equal length then differ in their node
+    segments and the partial-label pruning test fires."""
+    n = rnd.choice([6, 8, 8] if quick else [6, 8, 8, 10])
+    G0 = nx.random_regular_graph(3, n, seed=rnd)
+    g = uniform_graph(G0)
+    kind = rnd.choice(["isolated", "bonded", "isolated", "bonded", "geminal"])
+    b = n
+    g.add_node(b, **atom("N"))
+    g.add_node(b + 1, **atom("N"))
+    if kind == "bonded":
+        g.add_edge(b, b + 1, order=1.0)
+    elif kind == "geminal":
+        c = rnd.randrange(n)
+        g.add_edge(b, c, order=1.0)
+        g.add_edge(b + 1, c, order=1.0)
+    if rnd.random() < 0.3:
+        for v in g.nodes:
+            g.nodes[v]["atom_map"] = rnd.randint(0, 3)  # children of a cell ordered by atom map, ties by id
+    return g
+
+
+def ir_inputs(ctx):
+    """(tag, graph) for the IR correspondence stream: the populations of the other streams, re-used."""
+    rnd, q = ctx.rnd, ctx.quick
+    yield "malformed", mk([], [])
+    yield "malformed", mk([(4, atom())], [])
+    yield "malformed", mk([(4, atom()), (9, atom()), (2, atom())], [])
+    # tiny-exhaustive (sampled in the quick tier)
+    for n, els, orders, sample in ((1, ["C", "O"], [1.0], None), (2, ["C", "O"], [1.0, 2.0], None), (3, ["C", "O"], [1.0, 2.0], 40 if q else None),
+                                   (4, ["C", "O"], [1.0], 25 if q else 250)):
+        for g in tiny_bases(n, els, orders, rnd, sample):
+            yield f"tiny-n{n}", g
+    for n, alphabet, sample in ((2, ITS_PAIRS[0] + ((1.0, 1.0),), None), (3, ITS_PAIRS[0] + ((1.0, 1.0),), 25 if q else 128), (4, ITS_PAIRS[1] + ((1.0, 1.0),), 10 if q else 100)):
+        for g, _ in tiny_its_bases(n, alphabet, rnd, sample):
+            yield f"tiny-its-n{n}", g
+    # random molecule-like / ITS-style
+    for _ in range(60 if q else 600):
+        n = rnd.choice([1, 2, 3, 4, 5, 5, 6, 6, 7, 8, 9])
+        yield "random", random_mol(rnd, n, its=rnd.random() < 0.4)
+    # symmetric families, one label changed, pair-valued orders on symmetric skeletons
+    for name, g in symmetric_families(q).items():
+        yield "symmetric", g.copy()
+        for h in near_misses(rnd, g)[:1 if q else 2]:
+            yield "symmetric-1", h
+    for name, G0 in skeletons(q).items():
+        for pattern in ((rnd.choice(["alt", "one", "rand2", "rand3"]),) if q else ("alt", "one", "rand2", "rand3")):
+            yield "its-symmetric", its_symmetric(rnd, G0, pattern, rnd.choice(ITS_PAIRS), rnd.choice(STD_MODES))
+    # regular skeletons with twin nodes: pruning fires
+    for _ in range(30 if q else 150):
+        yield "twin-regular", twin_regular(rnd, q)
+    # one attribute breaks a symmetry (drop_*: an attribute absent everywhere — outside the model's precondition, counted and skipped); spectators
+    fams = symmetric_families(True)
+    for name in ("C4", "C6", "K23", "star4", "2xC3", "2xP2"):
+        for kind in (rnd.sample(BREAKERS, 3) if q else BREAKERS):
+            h = one_breaker(rnd, fams[name], kind)
+            if h is not None:
+                yield "breaker", h
+    for _ in range(8 if q else 80):
+        its = rnd.random() < 0.5
+        yield "spectators", add_spectators(rnd, random_mol(rnd, rnd.choice([2, 3, 4, 5]), its=its), its)
+    # two label classes whose order differs between Python's strings ("10.0" < "2.0") and the model's numbers: both
+    # minima are canonical forms, the final orders differ (recorded as ir:final_order_other_valid_choice, not gated)
+    for k in (4, 6) if q else (4, 6, 8):
+        g = uniform_graph(nx.cycle_graph(k))
+        for i in range(k):
+            g[i][(i + 1) % k]["order"] = 10.0 if i % 2 == 0 else 2.0
+        yield "string-vs-number-order", g
+    # standard_order NOT a function of order (within the model's precondition; the label has to carry it)
+    for name in ("C4", "C6", "K23", "2xC3"):
+        g = fams[name].copy()
+        for u, v in g.edges:
+            g[u][v]["standard_order"] = 0.0
+        for u, v in rnd.sample(list(g.edges), rnd.choice([1, 2])):
+            g[u][v]["standard_order"] = 1.0
+        yield "std-independent", g
+    for _ in range(6 if q else 60):
+        g = random_mol(rnd, rnd.choice([3, 4, 5, 6, 7]), its=rnd.random() < 0.3)
+        for u, v in g.edges:
+            g[u][v]["standard_order"] = rnd.choice([0.0, 0.0, 1.0])
+        yield "std-independent", g
+
+
+def stream_ir(ctx, batch):
+    """IR correspondence: ties SynKitModel/NautyIR.lean (theorems refine_equivariant ... fullStatement_ir) to
+    synkit/Graph/Canon/nauty.py, stage by stage.  Not gated: equality of the final order / serialisation
+    between implementation and model (Python orders label STRINGS, the model structured labels; both
+    minima are canonical forms) — recorded as ir:final_order_*."""
+    rnd = ctx.rnd
+    k = 0
+    for tag, g in ir_inputs(ctx):
+        g = ir_complete(rnd, g)
+        if g.number_of_nodes() >= 2 and rnd.random() < 0.5:
+            g = random_copy(rnd, g)  # sparse ids, other insertion order and edge orientation
+        done = check_ir(ctx, batch, g, tag)
+        ctx.case(["ir", dump(g)], nontrivial=g.number_of_nodes() >= 2,
+                 sample={"stream": "ir", "family": tag, "graph": dump(g)} if done and tag == "twin-regular" and k == 0 else None)
+        if done and tag == "twin-regular":
+            k += 1
+        if ctx.counters.get("ir:graphs", 0) % 100 == 99:
+            batch.run()
+        if ir_reports(ctx) >= IR_MAX_REPORTS or full(ctx):
+            break
+    batch.run()
+
+
 def run(ctx):
     ctx.trusted = [
         "Lean 4.33 kernel; axioms of the property theorems as listed in obligation_list",
         "hand-written model SynKitModel/Canon.lean (canonBy for an externally supplied node order, serialise, canonBrute) tied to /repo by this "
         "correspondence run; the shared matching engine SynKitModel/Match.lean (isoDecide) decides isomorphism",
         "SHA-256 is treated as injective (hypothesis of the digest-level theorems); signatures are compared only through the equalities they induce",
-        "how a back-end computes its node order (attribute sort, WL hashes, Morgan products, the individualisation-refinement search of nauty.py) is "
-        "NOT modelled: faithfulness and soundness are proved for every order; invariance of the exact back-end rests on the kernel test against the "
-        "proven engine / brute-force canonical form",
+        "how the generic / wl / morgan back-ends compute their node order (attribute sort, WL hashes, Morgan products) is NOT modelled: faithfulness "
+        "and soundness are proved for every order",
+        "hand-written model SynKitModel/NautyIR.lean of the exact back-end's individualisation-refinement search (irInitialPartition, irSig, irRefine, "
+        "irSearch with the pruning test, irBuildLabel, irCanon; invariance theorems ir_invariant / fullStatement_ir under IRCovered), tied to "
+        "synkit/Graph/Canon/nauty.py by the IR correspondence stream on every run: partitions, node signatures, the full unpruned leaf list and the "
+        "choice of the result are compared stage by stage on graphs that carry every covered attribute.  The model keeps labels structured and the "
+        "theorems hold for every strict total order on labels; that Python's order on the label STRINGS is such an order which identifies exactly the "
+        "leaves with equal structured labels is what the stream tests (equality pattern), the string order itself is trusted to be a total order.  "
+        "Outside IRCovered (an attribute absent on some node / edge) invariance rests on the kernel test against the proven engine / brute-force form",
+        "the leaf list of the implementation is observed through a subclass of the real NautyCanonicalizer that records its _build_label calls and "
+        "answers '' for the partial label (pruning off); no step of the search is re-implemented in the harness",
         "Driver/Canon.lean JSON codec, harness/graphio.py encoder, harness/props/c08.py adapter (node tags to read off the bijection; parser of the "
         "serialised text)",
         "history stream: os.fork gives a process image in which the library has been imported but never called; pickle round-trips a networkx graph "
@@ -1754,8 +2121,9 @@ def run(ctx):
     ]
     ctx.gen_rule = (
         "regression corpus first; tiny-exhaustive: ALL labelled graphs on n<=3 nodes (elements C/O, each edge absent/single/double, one node with hcount 0/1) and "
-        "on 4 nodes (elements C/O, edges absent/single; quick: seeded sample of 80, thorough: all 1024 + 300 with double bonds + 150 on 5 nodes), each with ALL "
-        "node permutations x 3 insertion orders (identity, reversed+flipped, shuffled; 2 resp. 1 for the thorough-only 4- and 5-node sets), 4 back-ends; random molecule-like graphs (1..9 nodes, trees + ring "
+        "on 4 nodes (elements C/O, edges absent/single; quick: seeded sample of 32, thorough: all 1024 + 300 with double bonds + 150 on 5 nodes), each with ALL "
+        "node permutations x 3 insertion orders (identity, reversed+flipped, shuffled; 2 resp. 1 for the thorough-only 4- and 5-node sets; quick: the shuffled one only on "
+        "3 and 4 nodes), 4 back-ends; random molecule-like graphs (1..9 nodes, trees + ring "
         "closures, sparse ids, 4 elements, charges, aromatic flags, hcounts, bond orders 1/1.5/2/3 or ITS-style order pairs with standard_order, extra uncovered "
         "attributes incl. tuples/lists) x random relabellings+insertion orders, plus one-attribute / one-edge near misses decided by the proven engine; "
         "symmetric families (cycles, K_{a,b}, K4, star, cube, prism, disjoint triangles, Petersen...) x random copies, each also with one label changed; "
@@ -1769,7 +2137,14 @@ def run(ctx):
         "non-default configurations (node_attrs permuted / + atom_map, wl_iterations 1/2/5, morgan_radius 0/1/2/5, sort keys over permuted key lists and with "
         "atom_map; attribute names on both nodes and edges) x random / symmetric graphs x copies and near misses. HISTORY: per back-end 5 (30) histories of "
         "20-40 steps over 4 canonicalisers (main, a variant configuration, another back-end, the twin module) and 2 base objects on one id set + derived "
-        "objects, every query compared with a history-free process; 24 (150) fresh graphs through the run's long-lived canonicalisers at the end.")
+        "objects, every query compared with a history-free process; 24 (150) fresh graphs through the run's long-lived canonicalisers at the end. "
+        "IR (exact back-end against SynKitModel/NautyIR.lean, stage by stage; ~300 (2000) graphs): the populations above re-used — empty / isolated nodes, "
+        "tiny-exhaustive scalar and pair-valued graphs on <=4 nodes (sampled), random molecule-like and ITS-style graphs up to 9 nodes (atom maps order the "
+        "children of a cell), symmetric families + one label changed, symmetric skeletons with pair orders, 3-regular carbon skeletons on 6-10 nodes with two "
+        "nitrogen twins (the partial-label pruning fires), symmetry breakers, spectators, a few graphs whose standard_order is independent of order; half of them renumbered onto sparse ids with shuffled insertion "
+        "order; standard_order, where no edge has it, completed as a function of order; per graph 2 probe partitions (unit / one cell individualised / random "
+        "cells) x 2 nodes for _node_signature and _refine; graphs lacking a covered attribute, or writing one value as 0 and 0.0, counted and skipped; searches "
+        "with more than 400 (1500) leaves skipped.")
     ctx.nontrivial_rule = "distinct as a JSON value of (stream, graph[, variant]); non-trivial when the graph has >= 2 nodes"
     pristine()  # forked before the first canonicalisation call of this process
     try:
@@ -1785,7 +2160,7 @@ def _run(ctx):
     for c in reg:
         run_case(ctx, batch, c["case"] if "case" in c else c, "regress")
     ctx.count("regress_cases", len(reg))
-    for stream in (stream_shapes, stream_symmetric, stream_tiny, stream_random, stream_twin, stream_malformed, stream_std, stream_rules,
+    for stream in (stream_ir, stream_shapes, stream_symmetric, stream_tiny, stream_random, stream_twin, stream_malformed, stream_std, stream_rules,
                    stream_options, stream_history):
         if full(ctx):
             break
@@ -1793,12 +2168,21 @@ def _run(ctx):
         stream(ctx, batch)
         ctx.extra.setdefault("stream_wall_s", {})[stream.__name__] = round(time.time() - _t, 1)
     ctx.extra["exhaustive"] = False
-    ctx.extra["exhaustive_part"] = "all labelled graphs on <=3 nodes (2 elements, 2 bond orders) and, in the thorough tier, on 4 nodes (2 elements, single bonds) x all node permutations x 2-3 insertion orders"
+    ctx.extra["exhaustive_part"] = ("all labelled graphs on <=3 nodes (2 elements, 2 bond orders) and, in the thorough tier, on 4 nodes (2 elements, single bonds) x all node permutations x "
+                                    + ("1 shuffled insertion order (3 on <=2 nodes)" if ctx.quick else "2-3 insertion orders"))
     ctx.extra["remark"] = ("SynRule equality is equality of the (left, right) fragment signatures (DESIGN 5a): rules with isomorphic sides and "
                            "non-isomorphic centres compare equal under an exact back-end; not a violation.")
     real = unknown_violations(ctx)
     ctx.obligation("correspondence: faithfulness (spec.isRelabelling), serialisation = model, determinism, kernel agreement with the proven "
                    "isomorphism engine, wrapper equality", not real)
+    n_ir = ctx.counters.get("ir:graphs", 0)
+    ir_bad = [v for v in real if isinstance(v.get("detail"), dict) and str(v["detail"].get("stream", "")).startswith("ir:")]
+    ctx.obligation("correspondence (exact back-end, model SynKitModel/NautyIR.lean): NautyCanonicalizer._initial_partition, _refine, _node_signature, "
+                   "the unpruned leaf list of _search (prefixes and orders in visiting order; equality pattern of the _build_label strings = equality "
+                   "pattern of the model's structured labels), canonical_form's perm = first leaf with the minimal label, model pruned = unpruned",
+                   not ir_bad and (n_ir > 0 or bool(real)),
+                   f"{n_ir} graphs compared stage by stage, {ctx.counters.get('ir:leaves', 0)} leaves, pruning fired on {ctx.counters.get('ir:pruning_fired', 0)}; "
+                   f"outside the model's precondition (counted, skipped): {sum(v for k, v in ctx.counters.items() if k.startswith('ir:skipped:'))}")
 
 
 def replay(ctx, case):
